@@ -180,3 +180,39 @@ Example C07_round_examples :
   roundFtoI (of_bits 4612811918334230528) = Ok 3%Z /\ roundFtoI (of_bits 13836183955189006336) = Ok (-3)%Z /\
   floorFtoI (of_bits 13826050856027422720) = Ok (-1)%Z /\ truncateFtoI (of_bits 4891288408196988160) = Err (EExc IntOverflow).
 Proof. vm_compute. repeat split; reflexivity. Qed.
+
+(** The arithmetic comparisons on floats and on mixed operands: two finite floats
+    compare as their values do; an integer and a float compare as the correctly
+    rounded binary64 of the integer and the float's value do (ISO: convert the
+    integer, then compare) -- each of =:=, =\=, <, >, =<, >= in both argument
+    orders.  (Proofs/FloatCompare.v) *)
+From PV Require Import Proofs.FloatCompare.
+Theorem C07_compare_floats : forall x y : f64, fis_finite x = true -> fis_finite y = true ->
+  let c := Rcompare (B2R 53 1024 x) (B2R 53 1024 y) in
+  eqF x y = is_eq c /\ neqF x y = negb (is_eq c) /\ lssF x y = is_lt c /\ gtrF x y = is_gt c /\
+  leqF x y = is_le c /\ geqF x y = is_ge c.
+Proof.
+  intros x y Hx Hy c.
+  exact (conj (eqF_correct x y Hx Hy) (conj (neqF_correct x y Hx Hy) (conj (lssF_correct x y Hx Hy)
+        (conj (gtrF_correct x y Hx Hy) (conj (leqF_correct x y Hx Hy) (geqF_correct x y Hx Hy)))))).
+Qed.
+Print Assumptions C07_compare_floats.
+
+Theorem C07_compare_mixed : forall (x : f64) (n : Z), fis_finite x = true -> int64b n = true ->
+  let c := Rcompare (B2R 53 1024 x) (rnd64 n) in
+  (eqFI x n = is_eq c /\ eqIF n x = is_eq c) /\ (neqFI x n = negb (is_eq c) /\ neqIF n x = negb (is_eq c)) /\
+  (lssFI x n = is_lt c /\ gtrIF n x = is_lt c) /\ (gtrFI x n = is_gt c /\ lssIF n x = is_gt c) /\
+  (geqFI x n = is_ge c /\ leqIF n x = is_ge c) /\ (leqFI x n = is_le c /\ geqIF n x = is_le c).
+Proof.
+  intros x n Hx Hn c.
+  exact (conj (eqFI_correct x n Hx Hn) (conj (neqFI_correct x n Hx Hn) (conj (lssFI_correct x n Hx Hn)
+        (conj (gtrFI_correct x n Hx Hn) (conj (geqFI_correct x n Hx Hn) (leqFI_correct x n Hx Hn)))))).
+Qed.
+Print Assumptions C07_compare_mixed.
+
+(** non-vacuity and the case C07_g got wrong: 2^63 as a float is greater than 1 and not less than 0;
+    9007199254740993 =:= 9007199254740992.0 holds (the integer rounds to that float) *)
+Example C07_compare_examples :
+  gtrFI (of_bits 4890909195324358656) 1 = true /\ lssFI (of_bits 4890909195324358656) 0 = false /\
+  eqIF 9007199254740993 (of_bits 4845873199050653696) = true.
+Proof. vm_compute. repeat split; reflexivity. Qed.
